@@ -100,7 +100,7 @@ class Job:
         return ("s0.%s" % self.ext).encode() if self.ext is not None else b""
 
     def name(self, i):
-        return "%s-c%d-r%d-n%s%s-%d" % (self.f.name, self.ch, self.sr, "+".join(map(str, self.parts)), "-p" + self.ext if self.ext is not None else "", i)
+        return "%s-c%d-r%d-n%s%s-%d" % (self.f.name, self.ch, self.sr, "+".join(map(str, self.parts)), "-p" + (self.ext if len(self.ext) <= 40 else "%sx%d" % (self.ext[0], len(self.ext))) if self.ext is not None else "", i)
 
     def script(self, reopen=True):
         if self.ext is not None:
@@ -185,7 +185,9 @@ def make_jobs(ctx, ct, fmts, quick):
                             continue
                         jobs.append(mk(ct, f, ch, sr, (lambda: split(n)), rng.choice([0, 3, 99999]), rng.random() < 0.3, rng))
         if ct.path_route:
-            exts = ["", "a", "iff", "8svx", "x" * 11, "y" * 40] if not quick else ["", "a", "iff", rng.choice(["8svx", "x" * 11, "y" * 40])]
+            # file names of 253 / 254 / 255 characters ("s0." + ext): the NAME chunk is 254 / 256 / 256 bytes (KF-SVX-NAME-LENGTH, repaired)
+            exts = ["", "a", "iff", "8svx", "x" * 11, "y" * 40, "n" * 250, "n" * 251, "n" * 252] if not quick else \
+                ["", "a", "iff", rng.choice(["8svx", "x" * 11, "y" * 40]), rng.choice(["n" * 250, "n" * 251, "n" * 252])]
             for ext in exts:
                 jobs.append(mk(ct, f, rng.choice(chans), rng.choice([8000, 44100, 65535]), (lambda: split(rng.choice([0, 1, 2, 5]))), rng.choice([0, 77]), rng.random() < 0.3, rng, ext=ext))
     return jobs
